@@ -30,6 +30,8 @@ ASSUMPTIONS = [
     "numeric comparison with relative tolerance 1e-9",
 ]
 NT_FLOOR = 0.2
+# coverage-guided complement (sv/fuzz.py): strategy -> number of cases
+FUZZ = {"thorough": {"references": 10000}}
 _uid = itertools.count()
 LEN = ["m", "cm", "km", "mm"]
 WORDS = ["Will Smith", "alpha", "x y z", "Tina", "abcdef"]
